@@ -25,7 +25,10 @@ type Slicer struct {
 	// callee is taken (control dependence of the result).
 	Control bool
 
-	seen     map[ssa.Value]bool
+	seen map[ssa.Value]bool
+	// full: values whose provenance was followed (seen also holds values that
+	// were only marked as the base object of a field/element selection)
+	full     map[ssa.Value]bool
 	bindings map[*ssa.Parameter][]ssa.Value
 	depthOf  map[*ssa.Function]int
 	root     *ssa.Function
@@ -98,6 +101,7 @@ func familyOf(top *ssa.Function) map[*ssa.Function]bool {
 // Slice returns the closure of values v may derive from (including v).
 func (s *Slicer) Slice(vs ...ssa.Value) map[ssa.Value]bool {
 	s.seen = map[ssa.Value]bool{}
+	s.full = map[ssa.Value]bool{}
 	s.bindings = map[*ssa.Parameter][]ssa.Value{}
 	s.depthOf = map[*ssa.Function]int{}
 	if len(vs) > 0 && vs[0] != nil {
@@ -110,9 +114,10 @@ func (s *Slicer) Slice(vs ...ssa.Value) map[ssa.Value]bool {
 }
 
 func (s *Slicer) visit(v ssa.Value, depth int) {
-	if v == nil || s.seen[v] {
+	if v == nil || s.full[v] {
 		return
 	}
+	s.full[v] = true
 	s.seen[v] = true
 	switch x := v.(type) {
 	case *ssa.Const, *ssa.Builtin, *ssa.Function:
@@ -236,6 +241,7 @@ func (s *Slicer) visit(v ssa.Value, depth int) {
 		if c, ok := x.Tuple.(*ssa.Call); ok {
 			s.call(c, x.Index, depth)
 			s.seen[c] = true
+			s.full[c] = true
 			return
 		}
 		s.visit(x.Tuple, depth)
@@ -340,10 +346,12 @@ func (s *Slicer) visitBase(v ssa.Value) {
 		case *ssa.Extract:
 			// an object returned by a call: its identity is what the call built it from
 			delete(s.seen, v)
+			delete(s.full, v)
 			s.visit(v, 1)
 			return
 		case *ssa.Call:
 			delete(s.seen, v)
+			delete(s.full, v)
 			s.visit(v, 1)
 			return
 		case *ssa.Phi:
@@ -428,6 +436,7 @@ func (s *Slicer) memory(addr ssa.Value, depth int) {
 	if fn == nil {
 		return
 	}
+	s.boundFieldStores(addr, depth)
 	ix := s.index(fn)
 	for _, st := range ix.stores {
 		if mayAlias(st.Addr, addr) {
@@ -447,11 +456,117 @@ func (s *Slicer) memory(addr ssa.Value, depth int) {
 	}
 }
 
+// argsBoundTo lists the values a parameter stands for: the arguments of the
+// descent that reached it, or (without a descent) of its in-repo call sites.
+func (s *Slicer) argsBoundTo(p *ssa.Parameter) []ssa.Value {
+	if bs, ok := s.bindings[p]; ok {
+		return bs
+	}
+	fn := p.Parent()
+	if (fn == s.root && !s.BindRoot) || s.CG == nil {
+		return nil
+	}
+	var out []ssa.Value
+	if n := s.CG.Nodes[fn]; n != nil {
+		idx := paramIndex(p)
+		for _, in := range n.In {
+			if in.Site == nil || !s.InRepo(in.Caller.Func) {
+				continue
+			}
+			if args := CallArgs(in.Site); idx >= 0 && idx < len(args) {
+				out = appendUnique(out, args[idx])
+			}
+		}
+	}
+	return out
+}
+
+// boundFieldStores: addr is p.f1.f2 for a pointer parameter p; what the callers
+// stored into the same field path of the object they pass for p is what a load
+// of addr may see (field sensitive: other fields of the object are not pulled in).
+func (s *Slicer) boundFieldStores(addr ssa.Value, depth int) {
+	var path []int
+	v := addr
+	for {
+		fa, ok := v.(*ssa.FieldAddr)
+		if !ok {
+			break
+		}
+		path = append(path, fa.Field)
+		v = fa.X
+	}
+	if len(path) == 0 {
+		return
+	}
+	var par *ssa.Parameter
+	switch x := v.(type) {
+	case *ssa.Parameter:
+		par = x
+	case *ssa.UnOp:
+		// a spilled parameter: load of the cell it was stored in
+		if x.Op == token.MUL {
+			if cell := s.cellOf(x.X); cell != nil && cell.Parent() != nil {
+				for _, st := range s.index(cell.Parent()).stores {
+					if s.cellOf(st.Addr) == cell {
+						if p, isP := st.Val.(*ssa.Parameter); isP {
+							par = p
+						}
+					}
+				}
+			}
+		}
+	}
+	if par == nil {
+		return
+	}
+	for _, b := range s.argsBoundTo(par) {
+		obj := rootOf(b)
+		if obj == nil || obj.Parent() == nil {
+			continue
+		}
+		if _, isAlloc := obj.(*ssa.Alloc); !isAlloc {
+			continue
+		}
+		for _, st := range s.index(obj.Parent()).stores {
+			if rootOf(st.Addr) != obj {
+				continue
+			}
+			// the store's own field path below the object
+			var sp []int
+			w := st.Addr
+			okPath := true
+			for w != obj {
+				fa, isFA := w.(*ssa.FieldAddr)
+				if !isFA {
+					okPath = false
+					break
+				}
+				sp = append(sp, fa.Field)
+				w = fa.X
+			}
+			if !okPath {
+				continue
+			}
+			// same path, or a store to an enclosing struct (prefix of the path from the object side)
+			match := len(sp) <= len(path)
+			for i := 0; match && i < len(sp); i++ {
+				if sp[len(sp)-1-i] != path[len(path)-1-i] {
+					match = false
+				}
+			}
+			if match {
+				s.visit(st.Val, depth)
+			}
+		}
+	}
+}
+
 // objectCall: value obj (a pointer / mutable object) is an argument of c; the
 // call may write into obj from its other arguments.
 func (s *Slicer) objectCall(c ssa.CallInstruction, obj ssa.Value, depth int) {
 	if cv, ok := c.(ssa.Value); ok {
 		s.seen[cv] = true // the call that filled the object is part of its provenance
+		s.full[cv] = true
 	}
 	callee := Callee(c)
 	if callee != nil && callee.Blocks != nil && s.InRepo != nil && s.InRepo(callee) && depth < s.MaxDepth {
@@ -600,6 +715,7 @@ func mayAlias(storeAddr, loadAddr ssa.Value) bool {
 
 func (s *Slicer) call(c *ssa.Call, resultIdx int, depth int) {
 	s.seen[c] = true
+	s.full[c] = true
 	callee := Callee(c)
 	args := CallArgs(c)
 	if callee != nil && callee.Blocks != nil && s.InRepo != nil && s.InRepo(callee) && depth < s.MaxDepth {
